@@ -12,6 +12,9 @@ structure Features where
   capIn : Nat       -- capacity of `Worker.input`
   capOut : Nat      -- capacity of `Worker.output`
   envCancels : Bool
+  /-- the worker's hand-off of a result is one arm of a select with `ctx.Done()` and gives up on
+  cancellation without closing `output` (not what the code does; a regenerated fact says which) -/
+  sendGivesUp : Bool := false
 deriving Repr, DecidableEq
 
 structure W where
@@ -65,9 +68,10 @@ def stepW (f : Features) (cancelled : Bool) (w : W) : List (W × Bool) :=
     ++ (if w.inQ > 0 then [({ w with inQ := w.inQ - 1, st := 1 }, false)] else [])
     ++ (if w.inClosed && w.inQ == 0 then [({ w with st := 2 }, false)] else [])
   | 1 =>
-    if w.outClosed then [(w, true)]
-    else if w.outQ < f.capOut then [({ w with outQ := w.outQ + 1, st := 0 }, false)]
-    else []
+    (if f.sendGivesUp && cancelled then [({ w with st := 2 }, false)] else [])
+    ++ (if w.outClosed then [(w, true)]
+        else if w.outQ < f.capOut then [({ w with outQ := w.outQ + 1, st := 0 }, false)]
+        else [])
   | _ => []
 
 /-- `Worker.Send` (check at `chk`, channel send at `chk + 1`) and `Worker.GetOutput` -/
